@@ -53,7 +53,7 @@ SIG_ARGS = "find_id_args_from_i:terminal-oob-write"
 def gen(ctx):
     TS.gen()
     import translate_code as TC
-    TC.ensure(["find_end_subtree_from_i", "find_id_args_from_i"])
+    TC.ensure(["find_end_subtree_from_i", "find_id_args_from_i", "get_levels_tree_from_i"])
 
 
 # =========================================================================== coq literals
